@@ -7,6 +7,9 @@ package main
 //	handlers            server/control.go (*Control).registerMsgHandlers: every RegisterHandler(&msg.X{}, h) as
 //	                    (X, h is a call of msg.AsyncHandler)
 //	clientHandlers      the same for client/control.go
+//	clientHandlerWaits  client/control.go: for every registered handler method (X, its body waits for the peer: it calls
+//	                    msg.ReadMsg / msg.ReadMsgInto, or dials through ctl.connectServer / a Connector) -- such a handler
+//	                    occupies whatever goroutine runs it until the server (or a user of the tunnel) does something
 //	readLoopInline      pkg/msg/handler.go (*Dispatcher).readLoop contains no `go` statement (handlers run inside it)
 //	asyncSpawns         pkg/msg/handler.go AsyncHandler's closure body is exactly one `go f(m)`
 //	workerWaitsDone     server/control.go (*Control).worker: the receive `<-ctl.msgDispatcher.Done()` precedes the
@@ -65,6 +68,58 @@ func sfSelIs(e ast.Expr, x, sel string) bool {
 
 // registerMsgHandlers: (message type, async)
 func sfHandlers(f *ast.File, file string) ([][2]string, error) {
+	var names []string
+	return sfHandlers0(f, file, &names)
+}
+
+// sfWaitsOnPeer: the body contains a blocking read of a frp message or a dial to the server
+func sfWaitsOnPeer(fd *ast.FuncDecl) bool {
+	found := false
+	ast.Inspect(fd.Body, func(n ast.Node) bool {
+		c, ok := n.(*ast.CallExpr)
+		if !ok {
+			return true
+		}
+		if sfSelIs(c.Fun, "msg", "ReadMsg") || sfSelIs(c.Fun, "msg", "ReadMsgInto") || sfSelIs(c.Fun, "ctl", "connectServer") {
+			found = true
+		}
+		if s, ok := c.Fun.(*ast.SelectorExpr); ok && (s.Sel.Name == "Connect" || s.Sel.Name == "Read" || s.Sel.Name == "ReadFull") {
+			found = true
+		}
+		return true
+	})
+	return found
+}
+
+// registerMsgHandlers: (message type, async) and (message type, the handler method waits for the peer)
+func sfHandlersW(f *ast.File, file string) ([][2]string, [][2]string, error) {
+	var names []string
+	out, err := sfHandlers0(f, file, &names)
+	if err != nil {
+		return nil, nil, err
+	}
+	var waits [][2]string
+	for i, h := range out {
+		fd := sfMethod(f, "Control", names[i])
+		if fd == nil || fd.Body == nil {
+			return nil, nil, fail("%s: handler method %s of %s not found", file, names[i], h[0])
+		}
+		waits = append(waits, [2]string{h[0], sfBool(sfWaitsOnPeer(fd))})
+	}
+	return out, waits, nil
+}
+
+func sfHandlerName(e ast.Expr) string {
+	if s, ok := e.(*ast.SelectorExpr); ok {
+		if id, ok := s.X.(*ast.Ident); ok && id.Name == "ctl" {
+			return s.Sel.Name
+		}
+	}
+	return ""
+}
+
+// the statements of registerMsgHandlers: (message type, async); *names receives the handler method names
+func sfHandlers0(f *ast.File, file string, names *[]string) ([][2]string, error) {
 	fd := sfMethod(f, "Control", "registerMsgHandlers")
 	if fd == nil {
 		return nil, fail("%s: (*Control).registerMsgHandlers not found", file)
@@ -96,16 +151,23 @@ func sfHandlers(f *ast.File, file string) ([][2]string, error) {
 			return nil, fail("%s: registerMsgHandlers: first argument is not &msg.X{}", file)
 		}
 		async := "false"
+		hname := ""
 		switch h := call.Args[1].(type) {
 		case *ast.SelectorExpr: // ctl.handleX
+			hname = sfHandlerName(h)
 		case *ast.CallExpr:
-			if !sfSelIs(h.Fun, "msg", "AsyncHandler") {
+			if !sfSelIs(h.Fun, "msg", "AsyncHandler") || len(h.Args) != 1 {
 				return nil, fail("%s: registerMsgHandlers: handler of %s is wrapped by something unknown", file, ty.Sel.Name)
 			}
 			async = "true"
+			hname = sfHandlerName(h.Args[0])
 		default:
 			return nil, fail("%s: registerMsgHandlers: handler of %s has an unknown shape", file, ty.Sel.Name)
 		}
+		if hname == "" {
+			return nil, fail("%s: registerMsgHandlers: handler of %s is not a method ctl.handleX", file, ty.Sel.Name)
+		}
+		*names = append(*names, hname)
 		out = append(out, [2]string{ty.Sel.Name, async})
 	}
 	if len(out) == 0 {
@@ -177,7 +239,7 @@ func genSessFacts(repo, out string) error {
 	if err != nil {
 		return err
 	}
-	clientHandlers, err := sfHandlers(cc, "client/control.go")
+	clientHandlers, clientWaits, err := sfHandlersW(cc, "client/control.go")
 	if err != nil {
 		return err
 	}
@@ -291,6 +353,7 @@ func genSessFacts(repo, out string) error {
 	}
 	list("handlers", handlers)
 	list("clientHandlers", clientHandlers)
+	list("clientHandlerWaits", clientWaits)
 	fmt.Fprintf(&b, "def readLoopInline : Bool := %s\n", sfBool(readLoopInline))
 	fmt.Fprintf(&b, "def asyncSpawns : Bool := %s\n", sfBool(asyncSpawns))
 	fmt.Fprintf(&b, "def workerWaitsDone : Bool := %s\n", sfBool(workerWaits))
@@ -300,4 +363,3 @@ func genSessFacts(repo, out string) error {
 	b.WriteString("\nend Frp.Gen.SessFacts\n")
 	return os.WriteFile(filepath.Join(out, "SessFacts.lean"), []byte(b.String()), 0o644)
 }
-
